@@ -188,7 +188,9 @@ Section Trivia.
      justified *)
   Definition TI (C : N -> Prop) (tr : list (N * state)) (s : ostate * N) (g : cfg) : Prop :=
     exists o1 F1, ev_run size s (finds g) = Some (o1, F1) /\
-      forall p, p < size -> p < bound o1 F1 (pos g) -> Done C s (finds g) tr p.
+      (forall p, p < size -> p < bound o1 F1 (pos g) -> Done C s (finds g) tr p) /\
+      (* past the end of the file nothing is open but a lexeme that starts there *)
+      (size < pos g -> o1 = None \/ size <= F1).
 
   Lemma Done_mono (C C' : N -> Prop) s fs tr tr' p :
     (forall q, C q -> C' q) -> incl tr tr' -> Done C s fs tr p -> Done C' s fs tr' p.
@@ -199,7 +201,7 @@ Section Trivia.
   Lemma TI_mono (C C' : N -> Prop) tr tr' s g :
     (forall q, C q -> C' q) -> incl tr tr' -> TI C tr s g -> TI C' tr' s g.
   Proof.
-    intros HC Hi (o1 & F1 & A & B). exists o1, F1. split; [exact A|].
+    intros HC Hi (o1 & F1 & A & B & E). exists o1, F1. split; [exact A|]. split; [|exact E].
     intros p P1 P2. eapply Done_mono; [exact HC | exact Hi | apply B; assumption].
   Qed.
 
@@ -395,6 +397,58 @@ Section Trivia.
       destruct (t_new a) eqn:En; [|discriminate]. destruct (t_rw a) eqn:Erw; [discriminate|].
       cbn [negb andb] in Hs. injection Hs as <-. exact (read_body_tri enum_len _ _ _ _ _ _ _ enum_sane HR Hz En He).
   Qed.
+  (* the read position never passes the end of the file, except by one on the end-of-file pseudo byte *)
+  Lemma exec_act_ZD y g g1 : ZD g -> exec_act jsc_len enum_len y g = Ok g1 -> ZD g1.
+  Proof.
+    intros Hz He. destruct y; cbn [exec_act] in He.
+    - destruct (pos g <? back); [discriminate|]. injection He as <-. exact Hz.
+    - injection He as <-. exact Hz.
+    - injection He as <-. exact Hz.
+    - injection He as <-. exact Hz.
+    - destruct (sstk g); [discriminate|]. injection He as <-. exact Hz.
+    - destruct (pos g <? n) eqn:En; [discriminate|]. apply N.ltb_ge in En. injection He as <-.
+      apply retreat_ZD; assumption.
+    - unfold read_body in He. pose proof (jsc_sane (rest g)) as Hf.
+      destruct (jsc_len (rest g)); [|discriminate]. injection He as <-.
+      destruct (0 <? n) eqn:E0; [|exact Hz]. apply advance_ZD; [exact Hz | lia].
+    - unfold read_body in He. pose proof (enum_sane (rest g)) as Hf.
+      destruct (enum_len (rest g)); [|discriminate]. injection He as <-.
+      destruct (0 <? n) eqn:E0; [|exact Hz]. apply advance_ZD; [exact Hz | lia].
+  Qed.
+
+  Definition R7 (p0 : N) (g : cfg) : Prop := pos g <= p0 \/ pos g + 1 <= size.
+
+  Lemma read_body_r7 f p0 g g1 : len_sane f -> ZD g -> read_body f g = Ok g1 -> R7 p0 g -> R7 p0 g1.
+  Proof.
+    intros Hf Hz He H7. unfold read_body in He. specialize (Hf (rest g)).
+    destruct (f (rest g)); [|discriminate]. injection He as <-.
+    destruct (0 <? n) eqn:E0; [|exact H7]. apply N.ltb_lt in E0.
+    pose proof (ZD_len data g Hz) as Hl. rewrite <- Hsize in Hl.
+    right. unfold advance. cbn [pos set_zip]. lia.
+  Qed.
+
+  Lemma exec_act_r7 p0 y g g1 : ZD g -> exec_act jsc_len enum_len y g = Ok g1 -> R7 p0 g -> R7 p0 g1.
+  Proof.
+    intros Hz He H7. destruct y; cbn [exec_act] in He.
+    - destruct (pos g <? back); [discriminate|]. injection He as <-. exact H7.
+    - injection He as <-. exact H7.
+    - injection He as <-. exact H7.
+    - injection He as <-. exact H7.
+    - destruct (sstk g); [discriminate|]. injection He as <-. exact H7.
+    - destruct (pos g <? n) eqn:En; [discriminate|]. apply N.ltb_ge in En. injection He as <-.
+      unfold R7, retreat in *. cbn [pos set_zip]. lia.
+    - exact (read_body_r7 jsc_len p0 g g1 jsc_sane Hz He H7).
+    - exact (read_body_r7 enum_len p0 g g1 enum_sane Hz He H7).
+  Qed.
+
+  Lemma exec_acts_r7 p0 l : forall g g1, ZD g -> exec_acts jsc_len enum_len l g = Ok g1 -> R7 p0 g -> R7 p0 g1.
+  Proof.
+    induction l as [|y l IH]; intros g g1 Hz He H7; cbn [exec_acts] in He.
+    - injection He as <-. exact H7.
+    - destruct (exec_act jsc_len enum_len y g) as [g2| | |] eqn:E; cbn [obind] in He; try discriminate.
+      eapply IH; [eapply exec_act_ZD; eassumption | exact He | eapply exec_act_r7; eassumption].
+  Qed.
+
   Lemma tfold_sound st c pk x p0 C tr s00 :
     ost_ok s00 -> p0 <= size -> byte_at p0 = c ->
     (forall k, pk = Some k -> 1 <= p0 /\ byte_at (p0 - 1) = k) ->
@@ -436,7 +490,8 @@ Section Trivia.
       dispatch_st jsc_len enum_len data size fuel c g = sf ->
       TI C (tr ++ [(p0, sf)]) s00 g ->
       dispatch jsc_len enum_len data size fuel c g = Ok g' ->
-      TI C (tr ++ [(p0, sf)]) s00 (advance g' 1) /\ (pos g' + 1 <= size -> ZD (advance g' 1)).
+      TI C (tr ++ [(p0, sf)]) s00 (advance g' 1) /\ (pos g' + 1 <= size -> ZD (advance g' 1)) /\
+      (c <> 0 -> pos g' + 1 <= size).
   Proof.
     intros Hc Hos Hp0 Hbyte Hc0 Hc1.
     induction fuel as [|fuel IH]; intros g g' Hpos HI Hz Hsf HT Hd; [discriminate|].
@@ -454,7 +509,7 @@ Section Trivia.
     destruct (tfold sp (reg g) c pk x (tst0 ty (reg g)) acts) as [a'|] eqn:Etf; [|discriminate].
     (* the start of the leaf *)
     assert (HR0 : RT p0 C (tr ++ [(p0, sf)]) s00 (tst0 ty (reg g)) g).
-    { destruct HT as (o1 & F1 & T1 & T2).
+    { destruct HT as (o1 & F1 & T1 & T2 & _).
       destruct HI as (_ & (o1' & F1' & E1 & E2 & _) & _).
       rewrite T1 in E1. injection E1 as <- <-.
       exists o1, F1. split; [exact T1|]. split; [exact E2|].
@@ -465,13 +520,32 @@ Section Trivia.
     assert (Hxn : x = XNil -> In (p0, reg g) (tr ++ [(p0, sf)])).
     { intros ->. subst sf. apply in_or_app. right. left. reflexivity. }
     destruct (tfold_sound (reg g) c pk x p0 C _ s00 Hos Hp0 Hbyte Hpk' Hxn acts _ a' g g1 HR0 Hz Etf Eex HEv) as [HR1 Hz1].
+    assert (H71 : R7 p0 g1).
+    { eapply exec_acts_r7; [exact Hz | exact Eex | left; lia]. }
     destruct x as [| |e].
     - (* XNil: the byte is consumed here *)
       injection Hd as <-.
-      split.
+      split; [|split].
       2:{ intros Hle. apply advance_ZD; [exact Hz1|]. pose proof (ZD_len data g1 Hz1). lia. }
+      2:{ intros Hne. specialize (Hc1 Hne). destruct H71; lia. }
       destruct HR1 as (o1 & F1 & R1 & R2 & R3 & R4 & R5 & R6).
+      apply andb_true_iff in Hlt as [Hlt Heof].
       exists o1, F1. unfold advance. cbn [finds pos set_zip]. split; [exact R1|].
+      split.
+      2:{ (* past the end of the file *)
+        intros Hpast.
+        assert (Hp0s : p0 = size) by (destruct H71; lia).
+        assert (Hg1 : pos g1 = p0) by lia.
+        destruct (c =? 0) eqn:Ec0.
+        2:{ apply N.eqb_neq in Ec0. specialize (Hc1 Ec0). lia. }
+        cbn [negb orb] in Heof. unfold eof_final_ok in Heof.
+        unfold final_ok in Hlt. apply andb_true_iff in Hlt as [L1 _].
+        pose proof (ev_run_ost _ _ _ Hos R1) as Hos1.
+        destruct (t_new a') eqn:En.
+        { destruct (R5 eq_refl) as [e0 ->]. right. unfold ost_ok in Hos1. cbn in Hos1. lia. }
+        rewrite orb_false_r in L1, Heof. apply negb_true_iff in L1. specialize (R6 L1).
+        destruct (t_rw a') eqn:Erw; [lia|]. cbn [orb] in Heof.
+        left. destruct o1 as [oq|]; [|reflexivity]. simpl in R2. rewrite <- R2 in Heof. discriminate. }
       intros p P1 P2.
       destruct o1 as [oq|]; [apply R3; [exact P1 | exact P2]|].
       cbn [bound] in P2. simpl in R2.
@@ -492,7 +566,7 @@ Section Trivia.
       eapply (IH g1 g'); try eassumption.
       + rewrite Hp1. exact Hpos.
       + destruct HR1 as (o1 & F1 & R1 & R2 & R3 & _). exists o1, F1. split; [exact R1|].
-        rewrite Hp1, Hpos. exact R3.
+        rewrite Hp1, Hpos. split; [exact R3 | intros; lia].
     - discriminate.
   Qed.
   (* ---- the driver: the same induction as TM_Loop, with the coverage invariant added ---- *)
@@ -531,7 +605,7 @@ Section Trivia.
   (* one pending event is processed *)
   Lemma event_step C tr s g ev fs :
     XI C tr s g -> finds g = ev :: fs ->
-    exists s1 g1 ol, process_event ev (set_finds g fs) = Ok (g1, ol) /\
+    exists s1 g1 ol, process_event ev (set_finds g fs) = Ok (g1, ol) /\ ev_step size s ev = Some s1 /\
       XI (Cadd C ol) tr s1 g1 /\ pos g1 = pos g /\ reg g1 = reg g /\ finds g1 = fs /\
       (MM g1 + 1 <= MM g)%Z /\
       match ol with Some l => lex_inb size l | None => True end.
@@ -543,7 +617,7 @@ Section Trivia.
     destruct (ev_step_props size _ _ _ Est) as (Hos1 & Hm1 & Hsz1).
     assert (Hrel' : estk_rel s (set_finds g fs)) by exact Hrel.
     destruct (process_event_sound ty Hok size s ev s1 (set_finds g fs) Hrel' Hos Est) as (g1 & ol & Hpe & Hshape & Hrel1 & Hol).
-    exists s1, g1, ol. split; [exact Hpe|].
+    exists s1, g1, ol. split; [exact Hpe|]. split; [reflexivity|].
     pose proof (process_event_iv _ _ _ _ _ _ Hrel' Est Hpe) as Hiv.
     assert (HT1 : pos g <= size -> InvTy ty size s1 (set_finds g fs)).
     { intros H. eapply invty_shift; [exact Ef | exact Est | exact (HTy H)]. }
@@ -560,8 +634,8 @@ Section Trivia.
     { unfold AllB. rewrite Hpre1, Hrest1. exact HA. }
     split.
     - split; [exact HG1|]. split; [exact HA1|]. split.
-      + destruct HT as (o1 & F1 & T1 & T2). rewrite Ef in T1. simpl in T1. rewrite Est in T1.
-        exists o1, F1. rewrite Hf1, Hp1. split; [exact T1|].
+      + destruct HT as (o1 & F1 & T1 & T2 & T3). rewrite Ef in T1. simpl in T1. rewrite Est in T1.
+        exists o1, F1. rewrite Hf1, Hp1. split; [exact T1|]. split; [|exact T3].
         intros p P1 P2. specialize (T2 p P1 P2). rewrite Ef in T2.
         destruct T2 as [H|[H|H]]; [left; left; exact H | | right; right; exact H].
         simpl in H. rewrite Est in H. destruct H as (ab & Hin & Hab).
@@ -601,28 +675,208 @@ Section Trivia.
   Lemma Cadd_none (C : N -> Prop) q : Cadd C None q -> C q.
   Proof. intros [H|[]]. exact H. Qed.
 
+  (* ---- the events of one dispatch (third checker, TriviaCheck.pend_ok) ---- *)
+  Variable ph : N -> state -> N.
+  Hypothesis Hpend : pend_ok ty ph = true.
+
+  Definition is_beg (ev : evt * N) : bool := evt_in (fst ev) evt_beginning.
+
+  Fixpoint phase_of (phi : N) (evs : list (evt * N)) : N :=
+    match evs with [] => phi | ev :: r => phase_of (ph_step phi (fst ev)) r end.
+
+  (* every pending Begin is placed at (or after) the end of the file *)
+  Definition BG (evs : list (evt * N)) : Prop := Forall (fun ev => is_beg ev = true -> size <= snd ev) evs.
+
+  Lemma ph_step_mono a b e : a <= b -> ph_step a e <= ph_step b e.
+  Proof.
+    intros H. unfold ph_step. destruct (evt_in e evt_beginning).
+    - destruct (N.eqb_spec a 0); destruct (N.eqb_spec b 0); destruct (N.eqb_spec a 1); destruct (N.eqb_spec b 1); lia.
+    - destruct (N.leb_spec0 a 1); destruct (N.leb_spec0 b 1); lia.
+  Qed.
+
+  Lemma phase_of_mono evs : forall a b, a <= b -> phase_of a evs <= phase_of b evs.
+  Proof. induction evs as [|ev r IH]; intros a b H; simpl; [exact H | apply IH, ph_step_mono, H]. Qed.
+
+  Lemma phase_of_app x y a : phase_of a (x ++ y) = phase_of (phase_of a x) y.
+  Proof. revert a. induction x as [|ev r IH]; intros a; simpl; [reflexivity | apply IH]. Qed.
+
+  Lemma phase_of_3 evs : phase_of 3 evs = 3.
+  Proof. induction evs as [|ev r IH]; simpl; [reflexivity|]. unfold ph_step. simpl. destruct (evt_in (fst ev) evt_beginning); exact IH. Qed.
+
+  Lemma phase_of_2 evs : phase_of 2 evs <= 2 -> evs = [].
+  Proof.
+    destruct evs as [|ev r]; [reflexivity|]. simpl. unfold ph_step. simpl.
+    destruct (evt_in (fst ev) evt_beginning); rewrite phase_of_3; lia.
+  Qed.
+
+  Lemma BG_app a b : BG a -> BG b -> BG (a ++ b).
+  Proof. intros A B. apply Forall_app. split; assumption. Qed.
+
+  Lemma ph_acts_sound c p0 : forall l g g' a a',
+    exec_acts jsc_len enum_len l g = Ok g' -> ph_acts c a l = Some a' ->
+    (snd a = false -> pos g = p0) ->
+    exists new, finds g' = finds g ++ new /\ phase_of (fst a) new = fst a' /\
+      (c = 0 -> Forall (fun ev => is_beg ev = true -> snd ev = p0) new) /\
+      (snd a' = false -> pos g' = p0).
+  Proof.
+    induction l as [|y l IH]; intros g g' a a' He Hp Hpos; cbn [exec_acts] in He.
+    - injection He as <-. cbn in Hp. injection Hp as <-. exists []. rewrite app_nil_r.
+      split; [reflexivity|]. split; [reflexivity|]. split; [intros; constructor | exact Hpos].
+    - destruct (exec_act jsc_len enum_len y g) as [g1| | |] eqn:Ey; cbn [obind] in He; try discriminate.
+      assert (Hother : forall a1, (snd a1 = false -> pos g1 = p0) -> finds g1 = finds g -> ph_acts c a1 l = Some a' -> fst a1 = fst a ->
+                exists new, finds g' = finds g ++ new /\ phase_of (fst a) new = fst a' /\
+                  (c = 0 -> Forall (fun ev => is_beg ev = true -> snd ev = p0) new) /\ (snd a' = false -> pos g' = p0)).
+      { intros a1 H1 H2 H3 H4. destruct (IH g1 g' a1 a' He H3 H1) as (new & N1 & N2 & N3 & N4).
+        exists new. rewrite N1, H2, <- H4. auto. }
+      destruct y; cbn [ph_acts] in Hp; cbn [exec_act] in Ey.
+      + (* AFound *)
+        destruct (pos g <? back); [discriminate|]. injection Ey as <-.
+        destruct ((c =? 0) && evt_in e evt_beginning && (snd a || negb (back =? 0))) eqn:Eg; [discriminate|].
+        destruct (IH _ g' _ a' He Hp Hpos) as (new & N1 & N2 & N3 & N4).
+        exists ((e, pos g - back) :: new). cbn [finds set_finds] in N1. rewrite N1, <- app_assoc.
+        split; [reflexivity|]. split; [exact N2|]. split; [|exact N4].
+        intros Hc0. constructor; [|apply N3; exact Hc0].
+        unfold is_beg. cbn [fst snd]. intros Hb. subst c. rewrite Hb in Eg. cbn in Eg.
+        apply orb_false_iff in Eg as [E1 E2]. apply negb_false_iff, N.eqb_eq in E2. subst back.
+        rewrite (Hpos E1). lia.
+      + injection Ey as <-. apply (Hother a); auto.
+      + injection Ey as <-. apply (Hother a); auto.
+      + injection Ey as <-. apply (Hother a); auto.
+      + destruct (sstk g); [discriminate|]. injection Ey as <-. apply (Hother a); auto.
+      + destruct (pos g <? n); [discriminate|]. injection Ey as <-.
+        apply (Hother (fst a, true)); auto. cbn. intros; discriminate.
+      + unfold read_body in Ey. destruct (jsc_len (rest g)); [|discriminate]. injection Ey as <-.
+        apply (Hother (fst a, true)); auto; [cbn; intros; discriminate | destruct (0 <? n); reflexivity].
+      + unfold read_body in Ey. destruct (enum_len (rest g)); [|discriminate]. injection Ey as <-.
+        apply (Hother (fst a, true)); auto; [cbn; intros; discriminate | destruct (0 <? n); reflexivity].
+  Qed.
+
+  Lemma pend_leaf st c lf : c < 256 -> In lf (leaves_for (step_tree st) c) -> leaf_pend_ok ty ph st c lf = true.
+  Proof.
+    intros Hc Hin. unfold pend_ok in Hpend. rewrite forallb_forall in Hpend.
+    specialize (Hpend st (all_states_complete st)). rewrite forallb_forall in Hpend.
+    specialize (Hpend c (all_byte_values_complete c Hc)). rewrite forallb_forall in Hpend. apply Hpend. exact Hin.
+  Qed.
+
+  Lemma pend_dispatch c s00 p0 :
+    c < 256 -> (c = 0 -> p0 = size) -> (c <> 0 -> p0 < size) ->
+    forall fuel g g',
+      pos g = p0 -> InvTy ty size s00 g ->
+      phase_of 0 (finds g) <= ph c (reg g) -> (c = 0 -> BG (finds g)) ->
+      dispatch jsc_len enum_len data size fuel c g = Ok g' ->
+      (c = 0 -> BG (finds g')) /\ (pos g' + 1 <= size -> phase_of 0 (finds g') <= 2).
+  Proof.
+    intros Hc Hc0 Hc1. induction fuel as [|fuel IH]; intros g g' Hpos HI Hph Hbg Hd; [discriminate|].
+    cbn [dispatch] in Hd.
+    destruct (eval_tree data size (step_tree (reg g)) c g) as [ax| | |] eqn:Eax; cbn [obind] in Hd; try discriminate.
+    destruct ax as [acts x]. cbn [fst snd] in Hd.
+    destruct (exec_acts jsc_len enum_len acts g) as [g1| | |] eqn:Eex; cbn [obind] in Hd; try discriminate.
+    pose proof (eval_tree_leaf data size _ _ _ _ Eax) as Hin.
+    assert (Hc0' : c = 0 -> pos g = size) by (rewrite Hpos; exact Hc0).
+    assert (Hc1' : c <> 0 -> pos g < size) by (rewrite Hpos; exact Hc1).
+    pose proof (leaf_sound ty Hok jsc_len enum_len jsc_sane enum_sane size c s00 g acts x Hc Hc0' Hc1' HI Hin) as Hl.
+    rewrite Eex in Hl. destruct Hl as (_ & _ & Hsz1 & _ & _ & Hx).
+    pose proof (pend_leaf (reg g) c _ Hc Hin) as Hlp. unfold leaf_pend_ok in Hlp. cbn [fst snd] in Hlp.
+    destruct (ph_acts c (ph c (reg g), false) acts) as [a'|] eqn:Epa; [|discriminate].
+    destruct (ph_acts_sound c p0 acts g g1 _ a' Eex Epa (fun _ => Hpos)) as (new & N1 & N2 & N3 & N4).
+    cbn [fst] in N2.
+    assert (Hphase : phase_of 0 (finds g1) <= fst a').
+    { rewrite N1, phase_of_app, <- N2. apply phase_of_mono. exact Hph. }
+    assert (Hbg1 : c = 0 -> BG (finds g1)).
+    { intros E. rewrite N1. apply BG_app; [apply Hbg; exact E|].
+      specialize (N3 E). unfold BG. eapply Forall_impl; [|exact N3]. cbn. intros ev H Hb. rewrite (H Hb), (Hc0 E). lia. }
+    (* the stack pass, for the targets of a re-dispatch and the lower bound of the read position *)
+    pose proof (ok_leaf ty Hok (reg g) c (acts, x) Hc Hin) as Hlk.
+    destruct HI as (Hv & HE & HZ & HL).
+    unfold leaf_ok in Hlk. cbn [fst snd] in Hlk.
+    destruct (sfold ty (reg g) (reg g, SE_none) acts) as [sa|] eqn:Esf; [|discriminate].
+    destruct (efold c (ast0 ty (reg g)) acts) as [ea|] eqn:Eef; [|discriminate].
+    assert (HS0 : RS ty (reg g) (sstk g) (reg g, SE_none) g) by (split; reflexivity).
+    pose proof (fold_sound ty jsc_len enum_len jsc_sane enum_sane size c (pos g) s00 (reg g) (sstk g) Hc0' Hc1' Hv acts _ _ g sa ea HS0 HE HZ Esf Eef) as Hf.
+    rewrite Eex in Hf. destruct Hf as (HS' & _ & _ & _ & Hposlb & _).
+    destruct x as [| |e].
+    - injection Hd as <-. split; [exact Hbg1|].
+      intros Hle. apply orb_true_iff in Hlp. destruct Hlp as [Hlp|Hlp].
+      + apply andb_true_iff in Hlp as [E0 Er]. apply N.eqb_eq in E0. apply Z.eqb_eq in Er.
+        specialize (Hc0' E0). rewrite Er in Hposlb. lia.
+      + apply N.leb_le in Hlp. lia.
+    - destruct Hx as (HI1 & Hp1 & _).
+      pose proof (targets_sound ty (reg g) (sstk g) sa g1 HS' Hv) as Htin.
+      rewrite forallb_forall in Hlp. specialize (Hlp _ Htin). apply N.leb_le in Hlp.
+      apply (IH g1 g'); try assumption; [rewrite Hp1; exact Hpos | lia].
+    - discriminate.
+  Qed.
+
+  Lemma process_event_beg ev g g1 ol :
+    process_event ev g = Ok (g1, ol) ->
+    (is_beg ev = true /\ ol = None) \/ (is_beg ev = false /\ exists l, ol = Some l).
+  Proof.
+    destruct ev as [e q]. unfold process_event, is_beg. cbn [fst]. intros H.
+    destruct (evt_in e evt_beginning); [left; injection H as _ <-; auto|]. right. split; [reflexivity|].
+    destruct (evt_in e evt_ending).
+    { destruct (estk g) as [|[se sq] r]; [discriminate|]. destruct (pair_ok se e); [|discriminate].
+      destruct (evt_lexkind e); [|discriminate]. injection H as _ <-. eexists; reflexivity. }
+    destruct (evt_in e evt_single); [|discriminate].
+    destruct (evt_lexkind e); [|discriminate]. injection H as _ <-. eexists; reflexivity.
+  Qed.
+
+  Lemma ev_step_beg s ev s1 : is_beg ev = true -> ev_step size s ev = Some s1 -> snd s1 = snd ev.
+  Proof.
+    destruct s as [o F], ev as [e q]. unfold is_beg, ev_step. cbn [fst snd]. intros ->.
+    destruct o; [discriminate|]. destruct ((F <=? q) && (q <=? size)); [|discriminate].
+    intros H; injection H as <-. reflexivity.
+  Qed.
+
+  (* between calls of Next(): a pending Begin is the last pending event; past the end of the file: every pending Begin
+     is placed at the end of the file.  PI 0 = inside a call (nothing handed out yet), PI 1 = between calls *)
+  Definition PI (k : N) (g : cfg) : Prop :=
+    (pos g <= size -> phase_of k (finds g) <= 2) /\ (size < pos g -> BG (finds g)).
+
+  Lemma note_lexeme_same l g :
+    finds (note_lexeme l g) = finds g /\ pos (note_lexeme l g) = pos g.
+  Proof.
+    unfold note_lexeme. destruct (lexkind_eqb (lk l) LParameter); [split; reflexivity|].
+    destruct (lexkind_eqb (lk l) LKeyword); split; reflexivity.
+  Qed.
+
   Lemma drain_tri n : forall C tr s g g' ol,
-    XI C tr s g -> (n <= List.length (finds g))%nat ->
+    XI C tr s g -> PI 0 g -> (n <= List.length (finds g))%nat ->
     drain n g = Ok (g', ol) ->
     exists s', XI (Cadd C ol) tr s' g' /\ pos g' = pos g /\
-      match ol with Some _ => (MM g' + 1 <= MM g)%Z | None => (MM g' <= MM g)%Z end.
+      match ol with
+      | Some _ => (MM g' + 1 <= MM g)%Z /\ PI 1 g'
+      | None => (MM g' <= MM g)%Z /\ (n = List.length (finds g) -> finds g' = [])
+      end.
   Proof.
-    induction n as [|n IH]; intros C tr s g g' ol HX Hn Hd; cbn [drain] in Hd.
-    - injection Hd as <- <-. exists s. split; [|split; [reflexivity | lia]].
-      eapply XI_mono; [| apply incl_refl | exact HX]. intros q H; left; exact H.
+    induction n as [|n IH]; intros C tr s g g' ol HX HP Hn Hd; cbn [drain] in Hd.
+    - injection Hd as <- <-. exists s. split; [|split; [reflexivity | split; [lia|]]].
+      + eapply XI_mono; [| apply incl_refl | exact HX]. intros q H; left; exact H.
+      + intros H. destruct (finds g); [reflexivity | discriminate].
     - destruct (finds g) as [|ev fs] eqn:Ef; [discriminate|].
-      destruct (event_step C tr s g ev fs HX Ef) as (s1 & g1 & ol1 & Hpe & HX1 & Hp1 & Hr1 & Hf1 & HM1 & Hol1).
+      destruct (event_step C tr s g ev fs HX Ef) as (s1 & g1 & ol1 & Hpe & Hst & HX1 & Hp1 & Hr1 & Hf1 & HM1 & Hol1).
       rewrite Hpe in Hd. cbn [obind fst snd] in Hd.
-      destruct ol1 as [l|].
+      destruct HP as [HP1 HP2]. rewrite Ef in HP1, HP2.
+      destruct (process_event_beg _ _ _ _ Hpe) as [[Hb ->]|[Hb [l ->]]].
+      + assert (HP' : PI 0 g1).
+        { split; rewrite Hp1, Hf1.
+          - intros H. specialize (HP1 H). cbn [phase_of] in HP1. unfold ph_step, is_beg in *. rewrite Hb in HP1. exact HP1.
+          - intros H. specialize (HP2 H). inversion HP2; assumption. }
+        assert (Hn1 : (n <= List.length (finds g1))%nat) by (rewrite Hf1; simpl in Hn; lia).
+        destruct (IH _ tr s1 g1 g' ol HX1 HP' Hn1 Hd) as (s' & A & B & D).
+        exists s'. split; [|split; [lia|]].
+        * eapply XI_mono; [| apply incl_refl | exact A].
+          intros q [H|H]; [left; apply Cadd_none; exact H | right; exact H].
+        * destruct ol; [destruct D; split; [lia | assumption]|].
+          destruct D as [D1 D2]. split; [lia|]. intros H. apply D2. rewrite Hf1. simpl in H. lia.
       + injection Hd as <- <-.
         destruct (XI_note _ _ _ _ l HX1 Hol1) as (HXn & Hpn & HMn).
-        exists s1. split; [exact HXn|]. split; [lia|]. lia.
-      + assert (Hn1 : (n <= List.length (finds g1))%nat) by (rewrite Hf1; simpl in Hn; lia).
-        destruct (IH _ tr s1 g1 g' ol HX1 Hn1 Hd) as (s' & A & B & D).
-        exists s'. split; [|split; [lia|destruct ol; lia]].
-        eapply XI_mono; [| apply incl_refl | exact A].
-        intros q [H|H]; [left; apply Cadd_none; exact H | right; exact H].
+        destruct (note_lexeme_same l g1) as [Nf Np].
+        exists s1. split; [exact HXn|]. split; [lia|]. split; [lia|].
+        split; rewrite Np, Nf, Hp1, Hf1.
+        * intros H. specialize (HP1 H). cbn [phase_of] in HP1. unfold ph_step, is_beg in *. rewrite Hb in HP1. exact HP1.
+        * intros H. specialize (HP2 H). inversion HP2; assumption.
   Qed.
+
   (* the event stack is not touched by dispatch *)
   Lemma exec_acts_estk l : forall g gx, exec_acts jsc_len enum_len l g = Ok gx -> estk gx = estk g.
   Proof.
@@ -699,18 +953,22 @@ Section Trivia.
     end.
 
   Lemma main_loop_tri fuel : forall C tr s g g' ol,
-    XI C tr s g -> (MM g < Z.of_nat fuel)%Z ->
+    XI C tr s g -> (pos g <= size -> finds g = []) ->
+    (MM g < Z.of_nat fuel)%Z ->
     main_loop jsc_len enum_len data size fuel g = Ok (g', ol) ->
     exists s', XI (Cadd C ol) (tr ++ loop_trace fuel g) s' g' /\
-      match ol with Some _ => (MM g' + 1 <= MM g)%Z | None => size < pos g' /\ (MM g' <= MM g)%Z end.
+      match ol with
+      | Some _ => (MM g' + 1 <= MM g)%Z /\ PI 1 g'
+      | None => size < pos g' /\ (MM g' <= MM g)%Z /\ (finds g' = [] \/ (g' = g /\ s' = s))
+      end.
   Proof.
-    induction fuel as [|fuel IH]; intros C tr s g g' ol HX Hfuel Hm; [discriminate|].
+    induction fuel as [|fuel IH]; intros C tr s g g' ol HX Hnof Hfuel Hm; [discriminate|].
     cbn [main_loop loop_trace] in *.
     destruct (pos g <=? size) eqn:Epos.
     2:{ apply N.leb_gt in Epos. injection Hm as <- <-. exists s. rewrite app_nil_r.
-        split; [|split; [exact Epos | lia]].
+        split; [|split; [exact Epos | split; [lia | right; split; reflexivity]]].
         eapply XI_mono; [| apply incl_refl | exact HX]. intros q H; left; exact H. }
-    apply N.leb_le in Epos.
+    apply N.leb_le in Epos. specialize (Hnof Epos).
     destruct HX as (HG & HA & HT & HZ). specialize (HZ Epos).
     destruct HG as (Hrel & Hos & Hsz & HEv & HL & HTy).
     pose proof (HTy Epos) as HI.
@@ -741,8 +999,14 @@ Section Trivia.
     set (tr1 := tr ++ [(pos g, sf)]).
     assert (HT0 : TI C tr1 s g).
     { eapply TI_mono; [intros q H; exact H | | exact HT]. apply incl_appl, incl_refl. }
-    destruct (dispatch_tri c s C tr (pos g) sf Hc256 Hos Epos Hcb Hc0 Hc1 redo_fuel g g1 eq_refl HI HZ eq_refl HT0 Ed) as [HT2 HZ2].
+    destruct (dispatch_tri c s C tr (pos g) sf Hc256 Hos Epos Hcb Hc0 Hc1 redo_fuel g g1 eq_refl HI HZ eq_refl HT0 Ed) as (HT2 & HZ2 & Hne2).
+    assert (Hph0 : phase_of 0 (finds g) <= ph c (reg g)) by (rewrite Hnof; simpl; lia).
+    assert (Hbg0 : c = 0 -> BG (finds g)) by (intros _; rewrite Hnof; constructor).
+    destruct (pend_dispatch c s (pos g) Hc256 Hc0 Hc1 redo_fuel g g1 eq_refl HI Hph0 Hbg0 Ed) as [Hbg1 Hph1].
     set (g2 := advance g1 1) in *.
+    assert (HP2 : PI 0 g2).
+    { unfold g2, advance, PI. cbn [finds pos set_zip]. split; [exact Hph1|].
+      intros H. apply Hbg1. destruct (N.eq_dec c 0) as [E|E]; [exact E | specialize (Hne2 E); lia]. }
     assert (HA2 : AllB g2) by (apply advance_allb; exact HA1).
     assert (Hrel2 : estk_rel s g2).
     { unfold g2, advance, estk_rel. cbn [estk set_zip]. rewrite (dispatch_estk _ _ _ _ Ed). exact Hrel. }
@@ -753,66 +1017,112 @@ Section Trivia.
         intros H. apply HI2. unfold g2, advance in H. simpl in H. exact H.
       - split; [exact HA2|]. split; [exact HT2|]. intros H. apply HZ2. unfold g2, advance in H. simpl in H. exact H. }
     destruct (drain (List.length (finds g2)) g2) as [[g3 ol3]|q e| |] eqn:Edr; cbn [obind fst snd] in Hm; try discriminate.
-    destruct (drain_tri _ C tr1 s g2 g3 ol3 HX2 (le_n _) Edr) as (s3 & HX3 & Hp3 & HM3).
+    destruct (drain_tri _ C tr1 s g2 g3 ol3 HX2 HP2 (le_n _) Edr) as (s3 & HX3 & Hp3 & HM3).
     destruct ol3 as [l|].
     - injection Hm as <- <-. exists s3.
       replace (tr ++ [(pos g, sf)]) with tr1 by reflexivity.
-      split; [exact HX3|]. fold g2 in HMM2. lia.
-    - assert (Hfuel3 : (MM g3 < Z.of_nat fuel)%Z) by (fold g2 in HMM2; lia).
-      destruct (IH _ tr1 s3 g3 g' ol HX3 Hfuel3 Hm) as (s4 & A & B).
+      split; [exact HX3|]. fold g2 in HMM2. destruct HM3 as [HM3 HP3]. split; [lia | exact HP3].
+    - destruct HM3 as [HM3 Hemp]. specialize (Hemp eq_refl).
+      assert (Hfuel3 : (MM g3 < Z.of_nat fuel)%Z) by (fold g2 in HMM2; lia).
+      destruct (IH _ tr1 s3 g3 g' ol HX3 (fun _ => Hemp) Hfuel3 Hm) as (s4 & A & B).
       exists s4. split.
       + replace (tr ++ (pos g, sf) :: loop_trace fuel g3) with (tr1 ++ loop_trace fuel g3)
           by (unfold tr1; rewrite <- app_assoc; reflexivity).
         eapply XI_mono; [| apply incl_refl | exact A].
         intros q [H|H]; [left; apply Cadd_none; exact H | right; exact H].
-      + fold g2 in HMM2. destruct ol; [lia | destruct B; split; [assumption | lia]].
+      + fold g2 in HMM2. destruct ol; [destruct B; split; [lia | assumption]|].
+        destruct B as (B1 & B2 & B3). split; [exact B1|]. split; [lia|].
+        left. destruct B3 as [B3|[-> _]]; [exact B3 | exact Hemp].
   Qed.
 
   Lemma next_tri fuel C tr s g g' ol :
-    XI C tr s g -> (MM g < Z.of_nat fuel)%Z ->
+    XI C tr s g -> PI 1 g -> (MM g < Z.of_nat fuel)%Z ->
     next jsc_len enum_len data size fuel g = Ok (g', ol) ->
     exists s', XI (Cadd C ol) (tr ++ next_trace fuel g) s' g' /\
-      match ol with Some _ => (MM g' + 1 <= MM g)%Z | None => size < pos g' end.
+      match ol with
+      | Some _ => (MM g' + 1 <= MM g)%Z /\ PI 1 g'
+      | None => size < pos g' /\ (finds g' = [] \/ size <= snd s')
+      end.
   Proof.
-    intros HX Hfuel Hn. unfold next, next_trace in *.
+    intros HX HP Hfuel Hn. unfold next, next_trace in *.
     destruct (finds g) as [|ev fs] eqn:Ef.
-    - destruct (main_loop_tri fuel C tr s g g' ol HX Hfuel Hn) as (s' & A & B).
-      exists s'. split; [exact A|]. destruct ol; [exact B | apply B].
-    - destruct (event_step C tr s g ev fs HX Ef) as (s1 & g1 & ol1 & Hpe & HX1 & Hp1 & Hr1 & Hf1 & HM1 & Hol1).
+    - destruct (main_loop_tri fuel C tr s g g' ol HX (fun _ => Ef) Hfuel Hn) as (s' & A & B).
+      exists s'. split; [exact A|]. destruct ol; [exact B|].
+      destruct B as (B1 & _ & B3). split; [exact B1|]. left. destruct B3 as [B3|[-> _]]; [exact B3 | exact Ef].
+    - destruct (event_step C tr s g ev fs HX Ef) as (s1 & g1 & ol1 & Hpe & Hst & HX1 & Hp1 & Hr1 & Hf1 & HM1 & Hol1).
       rewrite Hpe in *. cbn [obind fst snd] in Hn.
-      destruct ol1 as [l|].
-      + injection Hn as <- <-. exists s1. rewrite app_nil_r. split; [exact HX1 | exact HM1].
+      destruct HP as [HP1 HP2]. rewrite Ef in HP1, HP2.
+      destruct (process_event_beg _ _ _ _ Hpe) as [[Hb ->]|[Hb [l ->]]].
       + assert (Hfuel1 : (MM g1 < Z.of_nat fuel)%Z) by lia.
-        destruct (main_loop_tri fuel _ tr s1 g1 g' ol HX1 Hfuel1 Hn) as (s' & A & B).
+        assert (Hnof : pos g1 <= size -> finds g1 = []).
+        { rewrite Hp1, Hf1. intros H. specialize (HP1 H). cbn [phase_of] in HP1.
+          unfold ph_step, is_beg in *. rewrite Hb in HP1. cbn in HP1. apply phase_of_2. exact HP1. }
+        destruct (main_loop_tri fuel _ tr s1 g1 g' ol HX1 Hnof Hfuel1 Hn) as (s' & A & B).
         exists s'. split.
         * eapply XI_mono; [| apply incl_refl | exact A].
           intros q [H|H]; [left; apply Cadd_none; exact H | right; exact H].
-        * destruct ol; [lia | apply B].
+        * destruct ol; [destruct B; split; [lia | assumption]|].
+          destruct B as (B1 & _ & B3). split; [exact B1|].
+          destruct B3 as [B3|[-> ->]]; [left; exact B3|]. right.
+          rewrite Hp1 in B1. specialize (HP2 B1). inversion HP2 as [|? ? Hev _]; subst.
+          rewrite (ev_step_beg _ _ _ Hb Hst). apply Hev. exact Hb.
+      + injection Hn as <- <-. exists s1. rewrite app_nil_r. split; [exact HX1|]. split; [exact HM1|].
+        split; rewrite Hp1, Hf1.
+        * intros H. specialize (HP1 H). cbn [phase_of] in HP1. unfold ph_step, is_beg in *. rewrite Hb in HP1. exact HP1.
+        * intros H. specialize (HP2 H). inversion HP2; assumption.
   Qed.
 
   Definition covered (lexs : list lexeme) (p : N) : Prop := exists l, In l lexs /\ lb l <= p /\ p <= le l.
 
   Lemma scan_all_tri fuel : forall C tr s g acc lexs g',
-    XI C tr s g -> (MM g < Z.of_nat fuel)%Z ->
+    XI C tr s g -> PI 1 g -> (MM g < Z.of_nat fuel)%Z ->
     (forall p, C p -> covered acc p) ->
     scan_all jsc_len enum_len data size fuel g acc = (lexs, SEof, g') ->
     exists s' C', XI C' (tr ++ scan_all_trace fuel g) s' g' /\ size < pos g' /\
+                  (finds g' = [] \/ size <= snd s') /\
                   (forall p, C' p -> covered lexs p).
   Proof.
-    induction fuel as [|fuel IH]; intros C tr s g acc lexs g' HX Hfuel HC Hs; [discriminate|].
+    induction fuel as [|fuel IH]; intros C tr s g acc lexs g' HX HP Hfuel HC Hs; [discriminate|].
     cbn [scan_all scan_all_trace] in *.
     destruct (next jsc_len enum_len data size (S fuel) g) as [[g1 ol]|q e|w|] eqn:En; try discriminate.
-    destruct (next_tri (S fuel) C tr s g g1 ol HX Hfuel En) as (s1 & HX1 & HM1).
+    destruct (next_tri (S fuel) C tr s g g1 ol HX HP Hfuel En) as (s1 & HX1 & HM1).
     destruct ol as [l|].
-    - assert (Hfuel1 : (MM g1 < Z.of_nat fuel)%Z) by lia.
+    - destruct HM1 as [HM1 HP1].
+      assert (Hfuel1 : (MM g1 < Z.of_nat fuel)%Z) by lia.
       assert (HC1 : forall p, Cadd C (Some l) p -> covered (l :: acc) p).
       { intros p [H|H]; [destruct (HC p H) as (x & A & B); exists x; split; [right; exact A | exact B]|].
         exists l. split; [left; reflexivity | exact H]. }
-      destruct (IH _ _ s1 g1 (l :: acc) lexs g' HX1 Hfuel1 HC1 Hs) as (s' & C' & A & B & D).
-      exists s', C'. rewrite app_assoc. split; [exact A|]. split; [exact B | exact D].
+      destruct (IH _ _ s1 g1 (l :: acc) lexs g' HX1 HP1 Hfuel1 HC1 Hs) as (s' & C' & A & B & D & E).
+      exists s', C'. rewrite app_assoc. split; [exact A|]. split; [exact B|]. split; [exact D | exact E].
     - injection Hs as <- <-. exists s1, (Cadd C None). rewrite app_nil_r.
-      split; [exact HX1|]. split; [exact HM1|].
+      destruct HM1 as [HM1 HF1].
+      split; [exact HX1|]. split; [exact HM1|]. split; [exact HF1|].
       intros p H. apply Cadd_none in H. destruct (HC p H) as (x & A & B). exists x. split; [apply in_rev in A; exact A | exact B].
+  Qed.
+
+  (* once the frontier has reached the end of the file, the pending events produce no lexeme that covers a byte *)
+  Lemma past_run evs : forall s s1,
+    ost_ok s -> size <= snd s -> ev_run size s evs = Some s1 ->
+    size <= snd s1 /\ forall p, p < size -> ~ inIV (ev_ivs s evs) p.
+  Proof.
+    induction evs as [|ev r IH]; intros s s1 Ho Hs Hr; cbn [ev_run ev_ivs] in *.
+    - injection Hr as <-. split; [exact Hs|]. intros p _ (ab & [] & _).
+    - destruct (ev_step size s ev) as [s2|] eqn:Est; [|discriminate].
+      destruct (ev_step_props size _ _ _ Est) as (Ho2 & Hm2 & _).
+      destruct (IH s2 s1 Ho2 ltac:(lia) Hr) as [A B]. split; [exact A|].
+      intros p Hp (ab & Hin & Hab). apply in_app_or in Hin. destruct Hin as [Hin|Hin].
+      + destruct s as [o F], ev as [e q]. unfold ev_iv in Hin. cbn [fst snd] in *.
+        unfold ev_step in Est.
+        destruct (evt_in e evt_beginning); [destruct Hin|].
+        destruct (evt_in e evt_ending).
+        { destruct o as [[b qb]|]; [|destruct Hin]. unfold ost_ok in Ho. cbn in Ho. subst qb.
+          destruct Hin as [<-|[]]. cbn in Hab. lia. }
+        destruct (evt_in e evt_single); [|destruct Hin].
+        destruct o; [discriminate|].
+        destruct ((F <=? q) && (q + 1 <=? size)) eqn:E; [|discriminate].
+        apply andb_true_iff in E as [E1 _]. apply N.leb_le in E1.
+        destruct Hin as [<-|[]]. cbn in Hab. lia.
+      + apply (B p Hp). exists ab. split; assumption.
   Qed.
 End Trivia.
 
@@ -820,33 +1130,75 @@ End Trivia.
 Definition consume_trace (jsc_len enum_len : bytes -> len_result) (data : bytes) : list (N * state) :=
   scan_all_trace jsc_len enum_len data (N.of_nat (List.length data)) (scan_fuel data) (init_cfg data).
 
-Theorem scan_cover_generic ty sp jsc_len enum_len data :
-  table_ok ty = true -> trivia_ok ty sp = true ->
-  len_sane jsc_len -> len_sane enum_len -> Forall isb data ->
-  forall lexs g, scan jsc_len enum_len data = (lexs, SEof, g) ->
-  estk g = [] -> finds g = [] ->
-  forall p, p < N.of_nat (List.length data) ->
-    covered lexs p \/ SJ sp data (consume_trace jsc_len enum_len data) p.
-Proof.
-  intros Hok Htr Hj He Hb lexs g Hs Hestk Hfinds p Hp.
-  set (size := N.of_nat (List.length data)) in *.
-  destruct (ScanTheorems.init_GI ty Hok data Hb) as [HG HA]. fold size in HG.
-  pose proof (ScanTheorems.init_MM ty Hok data) as HM. fold size in HM.
-  assert (HX : XI ty sp data size (fun _ => False) [] (None, 0) (init_cfg data)).
-  { split; [exact HG|]. split; [exact HA|]. split.
-    - exists None, 0. split; [reflexivity|]. intros q _ Hq. simpl in Hq. lia.
-    - intros _. split; reflexivity. }
-  unfold scan in Hs. fold size in Hs.
-  destruct (scan_all_tri ty Hok sp Htr jsc_len enum_len Hj He data size eq_refl (scan_fuel data)
-              (fun _ => False) [] (None, 0) (init_cfg data) [] lexs g HX HM (fun _ F => match F with end) Hs)
-    as (s' & C' & (HG' & _ & HT' & _) & Hpos & HC').
-  destruct HG' as (Hrel & _).
-  destruct HT' as (o1 & F1 & T1 & T2). rewrite Hfinds in T1, T2. simpl in T1. injection T1 as T1.
-  unfold estk_rel in Hrel. rewrite T1 in Hrel. cbn [fst] in Hrel.
-  destruct o1 as [bq|]; [rewrite Hestk in Hrel; discriminate|].
-  assert (Hb2 : p < bound None F1 (pos g)) by (simpl; lia).
-  destruct (T2 p Hp Hb2) as [H|[H|H]].
-  - left. apply HC'. exact H.
-  - destruct H as (ab & [] & _).
-  - right. exact H.
-Qed.
+Section Whole.
+  Variable ty : typing.
+  Variable sp : skipspec.
+  Variable ph : N -> state -> N.
+  Hypothesis Hok : table_ok ty = true.
+  Hypothesis Htr : trivia_ok ty sp = true.
+  Hypothesis Hpend : pend_ok ty ph = true.
+  Variable jsc_len enum_len : bytes -> len_result.
+  Hypothesis Hj : len_sane jsc_len.
+  Hypothesis He : len_sane enum_len.
+  Variable data : bytes.
+  Hypothesis Hb : Forall isb data.
+
+  (* the state of the world when the scan reports the end of the file *)
+  Lemma scan_end_state lexs g :
+    scan jsc_len enum_len data = (lexs, SEof, g) ->
+    let size := N.of_nat (List.length data) in
+    exists s' C', XI ty sp data size C' (consume_trace jsc_len enum_len data) s' g /\ size < pos g /\
+                  (finds g = [] \/ size <= snd s') /\ (forall p, C' p -> covered lexs p).
+  Proof.
+    intros Hs size.
+    destruct (ScanTheorems.init_GI ty Hok data Hb) as [HG HA]. fold size in HG.
+    pose proof (ScanTheorems.init_MM ty Hok data) as HM. fold size in HM.
+    assert (HX : XI ty sp data size (fun _ => False) [] (None, 0) (init_cfg data)).
+    { split; [exact HG|]. split; [exact HA|]. split.
+      - exists None, 0. split; [reflexivity|]. split; [intros q _ Hq; simpl in Hq; lia | simpl; intros; lia].
+      - intros _. split; reflexivity. }
+    assert (HP : PI size 1 (init_cfg data)).
+    { split; [intros _; simpl; lia | intros _; constructor]. }
+    unfold scan in Hs. fold size in Hs.
+    exact (scan_all_tri ty Hok sp Htr jsc_len enum_len Hj He data size eq_refl ph Hpend (scan_fuel data)
+              (fun _ => False) [] (None, 0) (init_cfg data) [] lexs g HX HP HM (fun _ F => match F with end) Hs).
+  Qed.
+
+  Theorem scan_cover_generic lexs g :
+    scan jsc_len enum_len data = (lexs, SEof, g) ->
+    forall p, p < N.of_nat (List.length data) ->
+      covered lexs p \/ SJ sp data (consume_trace jsc_len enum_len data) p.
+  Proof.
+    intros Hs p Hp.
+    destruct (scan_end_state lexs g Hs) as (s' & C' & (HG' & _ & HT' & _) & Hpos & Hfin & HC').
+    set (size := N.of_nat (List.length data)) in *.
+    destruct HG' as (Hrel & Hos & _).
+    destruct HT' as (o1 & F1 & T1 & T2 & T3). specialize (T3 Hpos).
+    assert (Hbnd : p < bound o1 F1 (pos g)).
+    { destruct T3 as [->|T3]; [simpl; lia|]. destruct o1; simpl; lia. }
+    destruct (T2 p Hp Hbnd) as [H|[H|H]].
+    - left. apply HC'. exact H.
+    - exfalso. destruct Hfin as [Hf|Hf].
+      + rewrite Hf in H. destruct H as (ab & [] & _).
+      + destruct (past_run data size eq_refl _ _ _ Hos Hf T1) as [_ Hno]. exact (Hno p Hp H).
+    - right. exact H.
+  Qed.
+
+  (* at the end of the file the event stack is empty or holds one Begin placed AT the end of the file (the lexeme
+     it opens covers no byte) *)
+  Theorem scan_eof_stack_generic lexs g :
+    scan jsc_len enum_len data = (lexs, SEof, g) ->
+    estk g = [] \/ exists e, estk g = [(e, N.of_nat (List.length data))].
+  Proof.
+    intros Hs.
+    destruct (scan_end_state lexs g Hs) as (s' & C' & (HG' & _ & HT' & _) & Hpos & Hfin & _).
+    set (size := N.of_nat (List.length data)) in *.
+    destruct HG' as (Hrel & Hos & Hsz & _).
+    destruct s' as [[[e q]|] F]; unfold estk_rel in Hrel; cbn [fst] in Hrel; [|left; exact Hrel].
+    right. exists e. rewrite Hrel. unfold ost_ok in Hos. cbn in Hos, Hsz. subst F.
+    assert (size <= q); [|repeat f_equal; lia].
+    destruct Hfin as [Hf|Hf]; [|exact Hf].
+    destruct HT' as (o1 & F1 & T1 & _ & T3). rewrite Hf in T1. cbn in T1. injection T1 as <- <-.
+    destruct (T3 Hpos) as [?|?]; [discriminate | assumption].
+  Qed.
+End Whole.
